@@ -19,7 +19,7 @@ RULE = ("cases = generated 3D plotfiles with properly nested levels on even bloc
 ASSUMPTIONS = ["float reassociation only: tolerance 1e-10 * sum of |terms| (one lost or doubled cell "
                "is >= 1e-4 of that)", "pool shim M1 with shuffled schedules",
                "blocking factor even (statement's own restriction)"]
-REQUIRED_OBS = {"integrals": 100, "mixed_tilings": 4, "cli_runs": 30, "calls:compute_box_array": 30,
+REQUIRED_OBS = {"integrals": 100, "mixed_tilings": 4, "mixed_fine_level_tilings": 3, "cli_runs": 30, "calls:compute_box_array": 30,
                 "limited": 30, "volfrac": 30}
 TIMEOUT = {"quick": 600, "thorough": 3000}
 
@@ -32,7 +32,7 @@ def cases(tier, seed):
         g = dict(seed=rng.randrange(10 ** 9), ndims=3, names=["rho", "volFrac", "q"], payload="positive")
         if i % 3 == 0:
             s = rng.choice([[4, 6], [4, 6], [8, 12], [16, 24] if tier == "thorough" else [8, 12]])
-            g.update(sizes=s, nlevels=1 + (i // 3) % 3)
+            g.update(sizes=s, nlevels=2 + (i // 3) % 2, uneven=True, free_regions=(i % 2 == 0))
             if s[0] >= 8:
                 g["nlevels"] = min(g["nlevels"], 2)
             g["base"] = [s[0] + s[1], rng.choice([s[0], s[1], s[0] + s[1]]), rng.choice([s[0], s[1]])]
@@ -84,6 +84,9 @@ def run_case(case, work, rec):
     mixed = is_mixed(m)
     if mixed:
         rec.count("mixed_tilings")
+    ext = min(min(b.shape) for lv in m.boxes for b in lv)
+    if any(v % ext for lv in m.boxes[1:] for b in lv for v in list(b.lo) + [h + 1 for h in b.hi]):
+        rec.count("mixed_fine_level_tilings")     # where the occupancy map of a masking level is at stake
     rec.sample({"plotfile": gen.describe(m), "mixed_box_sizes": mixed})
     finest = m.nlevels - 1
     partial = m.nlevels >= 2 and any((gen.level_map(m, lv + 1) == lv).any() for lv in range(finest))
